@@ -19,7 +19,7 @@ func init() {
 		ID:    "C09",
 		Level: "exploration",
 		Rule: "sequential histories of attester calls replayed step by step against an executable model (verified set + per-client map issuer-origin-ID -> anonymous-origin-ID): operations Verify(c, honest), Verify(c, invalid), Finalize(c, issuer ID j, anonymous ID k). " +
-			"Every history of length <= 4 (quick) / <= 5 (thorough) over 2 clients x 2 issuer IDs x 2 anonymous IDs (12 operations) is enumerated, plus seeded histories of length 200 over 3 clients x 5 x 5. Issuer IDs are realised without an issuer by handing in ref-blinded fixed points. " +
+			"Every history of length <= 4 (quick) / <= 5 (thorough) over 2 clients x 2 issuer IDs x 2 anonymous IDs (14 operations: honest verify, verify with an invalid signature, verify of another client's correctly signed request, 4 finalizations per client) is enumerated, plus seeded histories of length 200 over 3 clients x 5 x 5. Issuer IDs are realised without an issuer by handing in ref-blinded fixed points. " +
 			"Oracle at every step: accept/reject as the model says, returned ID = reference HKDF, and the hook snapshot of the client's binding map equals the model's (so a rejected call that overwrote a binding is seen even if no later call probes it). " +
 			"distinct_nontrivial = histories containing a rejection followed by a later acceptance for the same client",
 		Floors:      []string{"steps_checked", "finalize_accept_new", "finalize_accept_repeat", "finalize_reject_conflict", "finalize_reject_unknown_client", "verify_reject_invalid", "snapshot_equal_model", "histories"},
@@ -29,7 +29,7 @@ func init() {
 }
 
 type c09Op struct {
-	kind   int // 0 verify honest, 1 verify invalid, 2 finalize
+	kind   int // 0 verify honest, 1 verify invalid signature, 2 finalize, 3 verify: valid signature by another client's key (key mismatch)
 	client int
 	j, k   int
 }
@@ -40,6 +40,8 @@ func (o c09Op) String() string {
 		return fmt.Sprintf("Verify(c%d)", o.client)
 	case 1:
 		return fmt.Sprintf("VerifyInvalid(c%d)", o.client)
+	case 3:
+		return fmt.Sprintf("VerifyForeignRequest(c%d)", o.client)
 	}
 	return fmt.Sprintf("Finalize(c%d,idx%d,anon%d)", o.client, o.j, o.k)
 }
@@ -113,10 +115,14 @@ func (w *c09World) replay(hist []c09Op, tag string) {
 		ck := w.clientKey[op.client]
 		id := hex.EncodeToString(ck)
 		switch op.kind {
-		case 0, 1:
+		case 0, 1, 3:
 			req := w.honest[op.client]
 			if op.kind == 1 {
 				req = w.invalid[op.client]
+			}
+			if op.kind == 3 {
+				// a correctly signed request of another client, presented for this client's key
+				req = w.honest[(op.client+1)%len(w.honest)]
 			}
 			var err error
 			pan, pv, _ := core.Guard(func() { err = att.VerifyRequest(req, w.blind[op.client], ck, w.anon[0]) })
@@ -234,7 +240,7 @@ func runC09(c *core.Ctx) {
 	w := newC09World(c, 2, 2, 2)
 	var ops []c09Op
 	for ci := 0; ci < 2; ci++ {
-		ops = append(ops, c09Op{kind: 0, client: ci}, c09Op{kind: 1, client: ci})
+		ops = append(ops, c09Op{kind: 0, client: ci}, c09Op{kind: 1, client: ci}, c09Op{kind: 3, client: ci})
 		for j := 0; j < 2; j++ {
 			for k := 0; k < 2; k++ {
 				ops = append(ops, c09Op{kind: 2, client: ci, j: j, k: k})
@@ -282,7 +288,7 @@ func runC09(c *core.Ctx) {
 			case x == 0:
 				hist[s] = c09Op{kind: 0, client: ci}
 			case x == 1:
-				hist[s] = c09Op{kind: 1, client: ci}
+				hist[s] = c09Op{kind: 1 + 2*r.IntN(2), client: ci}
 			default:
 				hist[s] = c09Op{kind: 2, client: ci, j: r.IntN(5), k: r.IntN(5)}
 			}
